@@ -98,6 +98,9 @@ def _seed_rules(chk, f, body, q, with_dist):
     """start marked visited; what happens with / without a direction (`body` = the function's statements, `q` the queue name)"""
     vis = [s for s in body if isinstance(s, ast.Assign) and norm(s.targets[0]) == "visited"]
     start = norm(vis[0].value) if vis else ""
+    if not vis:
+        # the visited set comes out of something this rule does not read (a seed helper that returns several values, a tuple unpack)
+        raise AnalysisError(f"{f.key}: no plain assignment `visited = ...` among the function's statements - how the traversal is seeded is in a shape the rule does not read")
     chk.decide(len(vis) == 1 and start in ("{start}", "set([start])", "set((start,))"), "C15.R2", f"{f.key}:start-visited", f.where(vis[0] if vis else None), "visited = {start}",
                f"visited is initialised as `{start}`: the start atom can be yielded / re-entered")
     # direction seed
@@ -445,7 +448,11 @@ def r5_matcher(chk, conn):
     ge = prog.method(ens, "get_substr_indices")
     if ge is not None and ge.cls == ens:
         chk.analysed(ge)
-        chk.decide(_indexed_by_pattern(ge), "C15.R5", f"{ge.key}:indexed-by-pattern-atoms", ge.where(), "[index in self of mapping[x] for x in pattern.atoms]",
+        # an override that hands the question to the base method (`yield from super().get_substr_indices(pattern)`) is that method
+        deleg = [e_ for e_ in walk_no_nested(ge.node) if isinstance(e_, (ast.YieldFrom, ast.Return)) and isinstance(e_.value, ast.Call)
+                 and norm(e_.value.func) == "super().get_substr_indices" and [norm(a_) for a_ in e_.value.args] == ge.params()[1:] and not e_.value.keywords]
+        only_that = len([s_ for s_ in ge.node.body if not (isinstance(s_, ast.Expr) and isinstance(s_.value, ast.Constant))]) == 1
+        chk.decide((bool(deleg) and only_that) or _indexed_by_pattern(ge), "C15.R5", f"{ge.key}:indexed-by-pattern-atoms", ge.where(), "[index in self of mapping[x] for x in pattern.atoms]",
                    "ConformerEnsemble.get_substr_indices does not list, in pattern order, the indices of the matched atoms: the list follows the matcher's visiting order, "
                    "so position k is not the image of pattern atom k")
     # the wildcard test is on the pattern side (second argument = G2 node attributes)
